@@ -1,0 +1,27 @@
+//go:build verif
+
+package ports
+
+import "sort"
+
+// VerifSnapshot returns the manager's three tables (C09 correspondence harness):
+// the free ports (sorted), the used ports with their owner names and the reserved
+// name -> port memory.
+func (pm *Manager) VerifSnapshot() (free []int, used map[int]string, reserved map[string]int) {
+	pm.mu.Lock()
+	defer pm.mu.Unlock()
+	free = make([]int, 0, len(pm.freePorts))
+	for p := range pm.freePorts {
+		free = append(free, p)
+	}
+	sort.Ints(free)
+	used = make(map[int]string, len(pm.usedPorts))
+	for p, ctx := range pm.usedPorts {
+		used[p] = ctx.ProxyName
+	}
+	reserved = make(map[string]int, len(pm.reservedPorts))
+	for n, ctx := range pm.reservedPorts {
+		reserved[n] = ctx.Port
+	}
+	return
+}
